@@ -158,17 +158,21 @@ def run(tier, seed):
     for n in range(1, (70 if tier == 'quick' else 130) + 1):
         ks = list(range(2, 18)) + ([ncpu + 1, 2 * ncpu + 1] if n % 10 == 0 else [])
         for k in sorted(set(ks)):
-            rng = random.Random('%s|e4wide|%d|%d' % (seed, n, k))
-            kind, api = APIS[(n * 5 + k) % len(APIS)]
-            rvals = [(j * 7 + n + (j // 4)) % 4 for j in range(n)]
-            base = base_case(rng, rvals, kind, api)
-            base['_src'] = 'wide:n=%d:k=%d' % (n, k)
-            base['_wide'] = 1      # the k-job run is judged by the envelope as well (missed / spurious pairs, C01-C04)
-            base['L']['rows'] = base['L']['rows'][:3] + base['L']['rows'][6:]      # x | x y | '' | x y z
-            c = copy.deepcopy(base)
-            c['n_jobs'] = k
-            groups.append((len(groups) + 1, base, [('n_jobs=%d' % k, c)]))
-            nwide += 1
+            # three entry points per cell: a set-similarity join, the edit-distance join, a filter_tables
+            picks = [APIS[(n * 5 + k) % 5], APIS[5], APIS[6 + (n * 3 + k) % 5]]
+            for pi, (kind, api) in enumerate(picks):
+                rng = random.Random('%s|e4wide|%d|%d|%d' % (seed, n, k, pi))
+                # every right row has a join value (the chunk boundaries refer to these n rows) and the last row
+                # takes part in output pairs
+                rvals = [1 + (j * 7 + n + (j // 4)) % 3 for j in range(n - 1)] + [3]
+                base = base_case(rng, rvals, kind, api)
+                base['_src'] = 'wide:n=%d:k=%d:%s' % (n, k, api)
+                base['_wide'] = 1      # the k-job run is judged by the envelope as well (missed / spurious pairs, C01-C04)
+                base['L']['rows'] = base['L']['rows'][:3] + base['L']['rows'][6:]      # x | x y | '' | x y z
+                c = copy.deepcopy(base)
+                c['n_jobs'] = k
+                groups.append((len(groups) + 1, base, [('n_jobs=%d' % k, c)]))
+                nwide += 1
     runner.log('E4: %d groups (base call + n_jobs / presentation variants) from %d TLC-enumerated right tables, '
                '%d of them on the (rows, jobs) grid' % (len(groups), len(gens), nwide))
     outs = runner.pmap(run_group, groups)
